@@ -817,5 +817,43 @@ def r12_15(ctx):
     return r
 
 
+def r12_16(ctx):
+    """'Each channel announces Open exactly once before its first message'. A pre-negotiated channel is announced by
+    the handshake completion (handle_cookie_ack / handle_cookie_echo walk the registry) - which only sees the channels
+    that exist at that moment. A negotiated channel created on an association that is already up was never announced,
+    yet the peer's messages were delivered on it. Decided: create_data_channel hands every negotiated channel to
+    SctpTransport::open_negotiated_channel when a transport exists, and does so AFTER the channel is in the registry
+    (so that whichever of the two places performs the Connecting->Open transition, one of them does); that function
+    announces Open for an established association (its Open site is counted and checked by R12.1)."""
+    r = RuleResult("R12.16", "K4", "a negotiated channel created after the association is up is announced Open")
+    b = ctx.body("peer_connection::PeerConnection::create_data_channel")
+    r.scope.append(b.name)
+    pushes = [bi for bi, t, p in b.calls() if p and p.endswith("::push") and t["a"] and mir.has_field(b.term_operand(t["a"][0]), "data_channels")]
+    r.need("registry push in create_data_channel", len(pushes), 1)
+    opens = [bi for bi, t, p in b.calls() if p and p.endswith("SctpTransport::open_negotiated_channel") and bi not in b.cleanup]
+    if not opens:
+        r.violate(b.name, "open:late-negotiated", b.where(pushes[0]),
+                  "create_data_channel never announces a negotiated channel: created after the association is up it stays Connecting, "
+                  "and the peer's messages are delivered on a channel that never said Open")
+        return r
+    for bi in opens:
+        if core.must_pass(b, bi, pushes):
+            r.ok({"site": b.where(bi), "after": "the channel is registered"})
+        else:
+            r.violate(b.name, "open:before-registration", b.where(bi),
+                      "the negotiated channel is offered for opening before it is in the registry: if the association comes up in between, "
+                      "neither the handshake completion nor this call announces it")
+    fn = "transports::sctp::SctpTransport::open_negotiated_channel"
+    ob = ctx.body(fn)
+    r.scope.append(fn)
+    ev = [bi for bi, t, p in ob.calls() if p and p.endswith("DataChannel::send_event") and
+          mir.has(ob.term_operand(t["a"][1]), lambda x: x[0] == "agg" and x[2] == "Open")]
+    if ev:
+        r.ok({"site": ob.where(ev[0]), "announces": "Open"})
+    else:
+        r.violate(fn, "open:none", ob.where(0), "open_negotiated_channel does not announce Open")
+    return r
+
+
 def run(ctx):
-    return [r12_1(ctx), r12_2(ctx), r12_2b(ctx), r12_3(ctx), r12_4(ctx), r12_5(ctx), r12_7(ctx), r12_8(ctx), r12_9(ctx), r12_10(ctx), r12_11(ctx), r12_12(ctx), r12_13(ctx), r12_14(ctx), r12_15(ctx)]
+    return [r12_1(ctx), r12_2(ctx), r12_2b(ctx), r12_3(ctx), r12_4(ctx), r12_5(ctx), r12_7(ctx), r12_8(ctx), r12_9(ctx), r12_10(ctx), r12_11(ctx), r12_12(ctx), r12_13(ctx), r12_14(ctx), r12_15(ctx), r12_16(ctx)]
